@@ -11,12 +11,12 @@ assumed about the router.  Termination for every step function is the totality o
 (structural recursion on the number of remaining values of `i`); `router_evaluations_bounded`
 states it quantitatively.
 
-The clauses "project ≡ standalone" and "response == live pipeline" are decided by the oracle of the
-harness (c19) on the implementation; the abstract-router extensionality theorem is in the second
-half of this file.
+The clauses "project ≡ standalone" and "response == live pipeline" are decided by the oracles of the
+harness (c19) on the implementation; the abstract-router extensionality theorem is a separate
+module (Props/C19b.lean, another work package).
 -/
 import RioModel.Proofs.Loop
--- import RioModel.Proofs.LoopAnalysis
+
 set_option linter.unusedSimpArgs false
 set_option linter.unusedSectionVars false
 
